@@ -117,6 +117,29 @@ def cases(ctx: Ctx):
         for op1 in (("refresh",) if q else ("refresh", "apply", "toggle_display")):
             for op2 in (OPS if not q else [OPS[(len(f) + k) % 5] for k in range(2)] + ["apply"]):
                 out.append((f"seq:{op1}>{op2}", [f], f"{op1} answered with {len(f)}-byte {f[10]:02x} frame, then {op2}"))
+    # 8. property responses mixed with undecodable / empty / foreign property frames in ONE exchange
+    def pf(recs, ftype=3, style="crc", rid=0xB1, count=None):
+        body = bytes([rid, len(recs) if count is None else count])
+        for pid, val in recs:
+            body += bytes([pid & 0xFF, pid >> 8, 0, len(val)]) + bytes(val)
+        return acdev.resp_frame(ftype, body, style)
+    goods = [pf([(0x09, [25]), (0x0A, [50])]), pf([(0x09, [75])], style="sum"), pf([(0x0A, [100]), (0x09, [1])], rid=0xB0), pf([(0x0A, [0])])]
+    g1 = goods[0]
+    bads = [acdev.resp_frame(3, bytes([0xB1]), "crc"), acdev.resp_frame(3, bytes([0xB1, 0]), "crc"), acdev.resp_frame(3, bytes([0xB0]), "sum"),
+            pf([(0x7777, [1, 2])]), pf([], count=5), pf([(0x15, [40])]), acdev.resp_frame(3, bytes([0xB1, 2, 0x09]), "crc"),
+            acdev.resp_frame(3, bytes([0xB1, 1, 0x09, 0, 0, 0]), "crc"), acdev.resp_frame(3, vb["state"][:7], "crc"), bytes(9)]
+    for b in bads:
+        for op in ("refresh", "apply", "start_self_clean"):
+            out.append((op, [g1, b], "good-props+bad"))
+            out.append((op, [b, g1], "bad+good-props"))
+        out.append(("refresh", [g1, b, goods[1]], "good-props+bad+good-props"))
+        out.append(("refresh", [goods[2], b, good_state(rng), b], "good-props+bad+good+bad"))
+    for a in goods:
+        for b in goods:
+            out.append((rng.choice(["refresh", "apply"]), [a, b], "good-props+good-props"))
+    for _ in range(ctx.pick(60, 1500)):
+        frames = [rng.choice(goods + bads + bads + [good_state(rng)]) for _ in range(rng.randint(2, 5))]
+        out.append((rng.choice(["refresh", "apply", "start_self_clean", "toggle_display"]), frames, "props-mix"))
     # 5. mixes
     for _ in range(ctx.pick(300, 6000)):
         k = rng.randint(2, 5)
@@ -156,6 +179,7 @@ def collect(ctx: Ctx, cs):
                 d.power_state = True
                 d.target_temperature = 23.5
             before = flags_of(d)
+            pbefore = {"ud": int(d.vertical_swing_angle), "lr": int(d.horizontal_swing_angle)}
             ac.replies = [bytes(f) for f in frames]
             ac.script = []
             raised = "none"
@@ -180,8 +204,13 @@ def collect(ctx: Ctx, cs):
             except Exception as e:  # noqa: BLE001
                 fl = before
                 raised = raised if raised != "none" else "attrs:" + type(e).__name__
+            try:
+                pfl = {"ud": int(d.vertical_swing_angle), "lr": int(d.horizontal_swing_angle)}
+            except Exception as e:  # noqa: BLE001
+                pfl = pbefore
+                raised = raised if raised != "none" else "attrs:" + type(e).__name__
             vectors.append({"op": op, "tag": tag, "frames": [B(f) for f in frames], "raised": raised, "online": bool(d.online),
-                            "flags": fl, "before": before})
+                            "flags": fl, "before": before, "pflags": pfl, "pbefore": pbefore})
             if d._lan._protocol:
                 d._lan._disconnect()
 
@@ -196,6 +225,9 @@ def judge(ctx, vectors, canaries=True):
         cans.append(c)
         src = next(v for v in vectors if v["tag"].endswith("+good") and v["op"] == "refresh" and v["raised"] == "none")
         cans.append(dict(src, flags=dict(src["flags"], power=not src["flags"]["power"])))
+        sp = next((v for v in vectors if v["tag"] == "good-props+bad" and v["op"] == "refresh" and v["raised"] == "none"), None)
+        if sp is not None:
+            cans.append(dict(sp, pflags=dict(sp["pflags"], ud=sp["pbefore"]["ud"])))       # the decodable property response was "not applied"
     rej = ctx.validate_vectors("Trace_C14", vectors + cans)
     n = len(vectors)
     if len({i for i, _ in rej if i >= n}) != len(cans):
